@@ -5,6 +5,7 @@ import (
 	"bytes"
 	"encoding/base64"
 	"encoding/json"
+	"fmt"
 	"os"
 	"os/exec"
 	"strings"
@@ -46,7 +47,11 @@ func (t *headWriter) String() string {
 }
 
 func startProc(emptyDir string) (*proc, error) {
-	cmd := exec.Command(os.Args[0], os.Args[1:]...)
+	exe, err := os.Executable()
+	if err != nil {
+		return nil, err
+	}
+	cmd := exec.Command(exe)
 	cmd.Env = append(os.Environ(), "VERIF_CHILD=1", "GOMEMLIMIT=1536MiB", "GOTRACEBACK=single", "VERIF_C01_DIR="+emptyDir)
 	cmd.Dir = emptyDir
 	ip, err := cmd.StdinPipe()
@@ -115,7 +120,8 @@ func (w *isolated) run(h *History) Verdict {
 	if w.p == nil {
 		p, err := startProc(w.emptyDir)
 		if err != nil {
-			return Verdict{Crashed: true, Kind: "infrastructure", Msg: "cannot start child: " + err.Error()}
+			fmt.Fprintln(os.Stderr, "runner error: cannot start child:", err)
+			os.Exit(2)
 		}
 		w.p = p
 	}
